@@ -321,4 +321,285 @@ def blkStep (s : BlkState) (b : Nat) : BlkState × List Block :=
   | .sync count data sync rem => blkStepSync count data sync rem b
   | .failed _ => (s, [])
 
+/-! ## JSON `TapeDecoder` (arrow-json/src/reader/tape.rs) and the `Decoder::decode`/`flush`
+protocol around it
+
+The model is the byte-at-a-time reading of `TapeDecoder::decode`: one function per
+`DecoderState`, each doing for one byte what the Rust arm does for the run of bytes it scans
+(`skip_chrs`/`memchr2`, `advance_until`, `skip_whitespace`, the `zip` over a literal).  The
+bulk scans are related to it by the `json_*_run` lemmas.  `Decoder::flush` is folded into the
+step at the only place where `decode` stops short of its input: a new row would start and
+`cur_row >= batch_size`. -/
+
+inductive Lit | null | true_ | false_
+  deriving DecidableEq, Repr
+
+def Lit.bytes : Lit → Bytes
+  | .null => [110, 117, 108, 108]
+  | .true_ => [116, 114, 117, 101]
+  | .false_ => [102, 97, 108, 115, 101]
+
+/-- `TapeElement` (the variants the decoder produces) -/
+inductive TapeEl
+  | startObject (e : Nat) | endObject (s : Nat) | startList (e : Nat) | endList (s : Nat)
+  | string (i : Nat) | number (i : Nat) | true_ | false_ | null
+  deriving DecidableEq, Repr
+
+def Lit.element : Lit → TapeEl
+  | .null => .null
+  | .true_ => .true_
+  | .false_ => .false_
+
+/-- `DecoderState` -/
+inductive JSt
+  | topLevelList | object (start : Nat) | list (start : Nat) | string | value | number | colon
+  | escape | unicode (high low idx : Nat) | literal (lit : Lit) (idx : Nat)
+  deriving DecidableEq, Repr
+
+inductive JErr
+  | syntax      -- `Err` from `decode`
+  | flush       -- `Err` from `flush` (`finish`: truncated record / invalid UTF-8)
+  deriving DecidableEq, Repr
+
+/-- the tape under construction: `elements`, `bytes`, `offsets`, `cur_row` -/
+structure Tape where
+  elements : List TapeEl
+  bytes : Bytes
+  offsets : List Nat
+  curRow : Nat
+  deriving DecidableEq, Repr
+
+def Tape.empty : Tape := ⟨[.null], [], [0], 0⟩
+
+/-- decoder configuration; `accept` is the array-decoding layer (`ArrayDecoder::decode` returns
+`Ok` for this tape), a function of the flushed tape only -/
+structure JCfg where
+  batchSize : Nat
+  flatten : Bool
+  accept : Tape → Bool
+
+/-- decoder state; the stack has its top at the head -/
+structure JState where
+  tape : Tape
+  stack : List JSt
+  err : Option JErr
+  deriving DecidableEq, Repr
+
+def jInit : JState := ⟨Tape.empty, [], none⟩
+
+def jsonWs (b : Nat) : Bool := b == 32 || b == 10 || b == 13 || b == 9
+def numChar (b : Nat) : Bool :=
+  (48 ≤ b && b ≤ 57) || b == 45 || b == 43 || b == 46 || b == 101 || b == 69
+
+/-- `char::to_digit(16)` -/
+def hexDigit? (b : Nat) : Option Nat :=
+  if 48 ≤ b ∧ b ≤ 57 then some (b - 48)
+  else if 97 ≤ b ∧ b ≤ 102 then some (b - 87)
+  else if 65 ≤ b ∧ b ≤ 70 then some (b - 55)
+  else none
+
+/-- `char::encode_utf8` -/
+def utf8Enc (c : Nat) : Bytes :=
+  if c < 0x80 then [c]
+  else if c < 0x800 then [0xC0 + c / 64, 0x80 + c % 64]
+  else if c < 0x10000 then [0xE0 + c / 4096, 0x80 + c / 64 % 64, 0x80 + c % 64]
+  else [0xF0 + c / 262144, 0x80 + c / 4096 % 64, 0x80 + c / 64 % 64, 0x80 + c % 64]
+
+/-- `char::from_u32` succeeds -/
+def isScalar (c : Nat) : Bool := c < 0xD800 || (0xE000 ≤ c && c < 0x110000)
+
+/-- `char_from_surrogate_pair(low, high)` **as written**:
+`(((high - 0xD800) as u32) << 10) | ((low - 0xDC00) as u32 + 0x1_0000)` — note the `|`. -/
+def surrogatePair (low high : Nat) : Option Nat :=
+  if 0xDC00 ≤ low ∧ low ≤ 0xDFFF ∧ 0xD800 ≤ high ∧ high ≤ 0xDBFF then
+    let n := ((high - 0xD800) <<< 10) ||| ((low - 0xDC00) + 0x10000)
+    if isScalar n then some n else none
+  else none
+
+/-- a well-formed UTF-8 prefix check: returns the remaining bytes after one valid scalar -/
+def utf8One : Bytes → Option Bytes
+  | [] => none
+  | b0 :: rest =>
+    let cont (b : Nat) : Bool := 0x80 ≤ b && b ≤ 0xBF
+    if b0 < 0x80 then some rest
+    else if 0xC2 ≤ b0 ∧ b0 ≤ 0xDF then
+      match rest with
+      | b1 :: r => if cont b1 then some r else none
+      | _ => none
+    else if 0xE0 ≤ b0 ∧ b0 ≤ 0xEF then
+      match rest with
+      | b1 :: b2 :: r =>
+        let lo := if b0 = 0xE0 then 0xA0 else 0x80
+        let hi := if b0 = 0xED then 0x9F else 0xBF
+        if lo ≤ b1 ∧ b1 ≤ hi ∧ cont b2 then some r else none
+      | _ => none
+    else if 0xF0 ≤ b0 ∧ b0 ≤ 0xF4 then
+      match rest with
+      | b1 :: b2 :: b3 :: r =>
+        let lo := if b0 = 0xF0 then 0x90 else 0x80
+        let hi := if b0 = 0xF4 then 0x8F else 0xBF
+        if lo ≤ b1 ∧ b1 ≤ hi ∧ cont b2 ∧ cont b3 then some r else none
+      | _ => none
+    else none
+
+/-- `simdutf8::basic::from_utf8(..).is_ok()` -/
+def utf8Valid (fuel : Nat) (bs : Bytes) : Bool :=
+  match fuel with
+  | 0 => bs.isEmpty
+  | fuel + 1 =>
+    if bs.isEmpty then true else
+    match utf8One bs with
+    | none => false
+    | some r => utf8Valid fuel r
+
+/-- `str::is_char_boundary(off)` on valid UTF-8 -/
+def charBoundary (bs : Bytes) (off : Nat) : Bool :=
+  off == bs.length || (match bs[off]? with
+    | some b => !(0x80 ≤ b && b ≤ 0xBF)
+    | none => false)
+
+/-- `TapeDecoder::finish` succeeds (stack condition checked by the caller) -/
+def tapeOk (t : Tape) : Bool :=
+  utf8Valid (t.bytes.length + 1) t.bytes && t.offsets.all (charBoundary t.bytes)
+
+/-- `Decoder::flush` when no record is in progress: emits the tape as a batch (if it has rows)
+and clears it; an invalid tape is an error -/
+def jFlush (cfg : JCfg) (s : JState) : JState × List Tape :=
+  if !tapeOk s.tape then ({ s with err := some .flush }, [])
+  else if s.tape.curRow = 0 then (s, [])
+  else if !cfg.accept s.tape then ({ s with err := some .flush }, [])
+  else ({ s with tape := Tape.empty }, [s.tape])
+
+def jFail (s : JState) : JState × List Tape := ({ s with err := some .syntax }, [])
+
+def Tape.pushEl (t : Tape) (e : TapeEl) : Tape := { t with elements := t.elements ++ [e] }
+def Tape.pushByte (t : Tape) (b : Nat) : Tape := { t with bytes := t.bytes ++ [b] }
+def Tape.pushBytes (t : Tape) (bs : Bytes) : Tape := { t with bytes := t.bytes ++ bs }
+/-- finish a string / number: element pointing at the current offset slot, new offset -/
+def Tape.closeStr (t : Tape) (mk : Nat → TapeEl) : Tape :=
+  { t with elements := t.elements ++ [mk (t.offsets.length - 1)], offsets := t.offsets ++ [t.bytes.length] }
+
+/-- `DecoderState::Value` arm for a non-whitespace byte; `rest` is the stack below the `Value` -/
+def jValue (s : JState) (rest : List JSt) (b : Nat) : JState × List Tape :=
+  if b = 34 then ({ s with stack := .string :: rest }, [])
+  else if b = 45 ∨ (48 ≤ b ∧ b ≤ 57) then
+    ({ s with tape := s.tape.pushByte b, stack := .number :: rest }, [])
+  else if b = 110 then ({ s with stack := .literal .null 1 :: rest }, [])
+  else if b = 102 then ({ s with stack := .literal .false_ 1 :: rest }, [])
+  else if b = 116 then ({ s with stack := .literal .true_ 1 :: rest }, [])
+  else if b = 91 then
+    ({ s with tape := s.tape.pushEl (.startList 0xFFFFFFFF), stack := .list s.tape.elements.length :: rest }, [])
+  else if b = 123 then
+    ({ s with tape := s.tape.pushEl (.startObject 0xFFFFFFFF), stack := .object s.tape.elements.length :: rest }, [])
+  else jFail s
+
+/-- start of a new row (`cur_row += 1; push(Value)`), flushing first when the batch is full -/
+def jStartRow (cfg : JCfg) (s : JState) (b : Nat) : JState × List Tape :=
+  let r := if s.tape.curRow ≥ cfg.batchSize then jFlush cfg s else (s, [])
+  if r.1.err.isSome then r else
+  let s1 := r.1
+  match s1.stack with
+  | [] =>
+    if b = 91 ∧ cfg.flatten then ({ s1 with stack := [.topLevelList] }, r.2)
+    else
+      let r2 := jValue { s1 with tape := { s1.tape with curRow := s1.tape.curRow + 1 } } s1.stack b
+      (r2.1, r.2 ++ r2.2)
+  | _ =>
+    -- top-level list
+    if b = 93 then ({ s1 with stack := s1.stack.drop 1 }, r.2)
+    else
+      let r2 := jValue { s1 with tape := { s1.tape with curRow := s1.tape.curRow + 1 } } s1.stack b
+      (r2.1, r.2 ++ r2.2)
+
+/-- every `DecoderState` arm except `Number`, for one byte -/
+def jStepMain (cfg : JCfg) (s : JState) (b : Nat) : JState × List Tape :=
+  match s.stack with
+  | [] => if jsonWs b then (s, []) else jStartRow cfg s b
+  | .topLevelList :: _ => if jsonWs b || b == 44 then (s, []) else jStartRow cfg s b
+  | .object start :: rest =>
+    if jsonWs b || b == 44 then (s, [])
+    else if b = 34 then ({ s with stack := .string :: .colon :: .value :: .object start :: rest }, [])
+    else if b = 125 then
+      let endIdx := s.tape.elements.length
+      ({ s with tape := { s.tape with elements := (s.tape.elements.set start (.startObject endIdx)) ++ [.endObject start] },
+                stack := rest }, [])
+    else jFail s
+  | .list start :: rest =>
+    if jsonWs b || b == 44 then (s, [])
+    else if b = 93 then
+      let endIdx := s.tape.elements.length
+      ({ s with tape := { s.tape with elements := (s.tape.elements.set start (.startList endIdx)) ++ [.endList start] },
+                stack := rest }, [])
+    else jValue s (.list start :: rest) b
+  | .string :: rest =>
+    if b = 92 then ({ s with stack := .escape :: .string :: rest }, [])
+    else if b = 34 then ({ s with tape := s.tape.closeStr .string, stack := rest }, [])
+    else ({ s with tape := s.tape.pushByte b }, [])
+  | .value :: rest => if jsonWs b then (s, []) else jValue s rest b
+  | .number :: _ => jFail s   -- handled by `jStep`
+  | .colon :: rest =>
+    if jsonWs b then (s, []) else if b = 58 then ({ s with stack := rest }, []) else jFail s
+  | .literal lit idx :: rest =>
+    if lit.bytes[idx]? = some b then
+      if idx + 1 = lit.bytes.length then ({ s with tape := s.tape.pushEl lit.element, stack := rest }, [])
+      else ({ s with stack := .literal lit (idx + 1) :: rest }, [])
+    else jFail s
+  | .escape :: rest =>
+    if b = 117 then ({ s with stack := .unicode 0 0 0 :: rest }, [])
+    else
+      let v : Option Nat :=
+        if b = 34 then some 34 else if b = 92 then some 92 else if b = 47 then some 47
+        else if b = 98 then some 8 else if b = 102 then some 12 else if b = 110 then some 10
+        else if b = 114 then some 13 else if b = 116 then some 9 else none
+      match v with
+      | some v => ({ s with tape := s.tape.pushByte v, stack := rest }, [])
+      | none => jFail s
+  | .unicode high low idx :: rest =>
+    if idx ≤ 3 then
+      match hexDigit? b with
+      | none => jFail s
+      | some d =>
+        let high' := (high * 16 + d) % 65536
+        if idx + 1 = 4 ∧ isScalar high' then
+          ({ s with tape := s.tape.pushBytes (utf8Enc high'), stack := rest }, [])
+        else ({ s with stack := .unicode high' low (idx + 1) :: rest }, [])
+    else if idx = 4 then
+      if b = 92 then ({ s with stack := .unicode high low 5 :: rest }, []) else jFail s
+    else if idx = 5 then
+      if b = 117 then ({ s with stack := .unicode high low 6 :: rest }, []) else jFail s
+    else
+      match hexDigit? b with
+      | none => jFail s
+      | some d =>
+        let low' := (low * 16 + d) % 65536
+        if idx + 1 ≥ 10 then
+          match surrogatePair low' high with
+          | some c => ({ s with tape := s.tape.pushBytes (utf8Enc c), stack := rest }, [])
+          | none => jFail s
+        else ({ s with stack := .unicode high low' (idx + 1) :: rest }, [])
+
+/-- byte-at-a-time transducer for the JSON decoder: `TapeDecoder::decode` + the `flush` calls
+of the push protocol.  A number ends only at the first byte that cannot belong to it; that
+byte is then handled by the state below. -/
+def jStep (cfg : JCfg) (s : JState) (b : Nat) : JState × List Tape :=
+  if s.err.isSome then (s, []) else
+  match s.stack with
+  | .number :: rest =>
+    if numChar b then ({ s with tape := s.tape.pushByte b }, [])
+    else jStepMain cfg { s with tape := s.tape.closeStr .number, stack := rest } b
+  | _ => jStepMain cfg s b
+
+def jFeed (cfg : JCfg) (s : JState) (chunk : Bytes) : JState × List Tape := runBytes (jStep cfg) s chunk
+
+/-- the final `flush()`: `(last batch, verdict)` -/
+def jFinish (cfg : JCfg) (s : JState) : List Tape × Option JErr :=
+  match s.err with
+  | some e => ([], some e)
+  | none =>
+    match s.stack with
+    | [] | [.topLevelList] =>
+      let r := jFlush cfg s
+      (r.2, r.1.err)
+    | _ => ([], some .flush)
+
 end ArrowModel.C14
